@@ -1,4 +1,6 @@
 """Semantic description of argument sub-parsers (rename tolerant) and extraction of their tables."""
+import re
+
 from . import peg, rx
 from .facts import src
 
@@ -104,10 +106,25 @@ def arg_sem(g, n, scope, depth=0):
         if cs is not None and set(cs["table"]) == {"+", "-", ""}:
             inn = {arg_sem(g, i, scope, depth + 1) for i in cs["inners"]}
             return "cmp(%s)" % "|".join(sorted(inn))
+        inner = None
         if body is not None and body["t"] == "map" and unwrap(body["p"])["t"] == "ref" and unwrap(body["p"]).get("extra"):
             inner = unwrap(body["p"])
+        elif fb.get("t") == "fnbody" and len(fb["steps"]) == 1 and not fb["unknown"] and not fb["lets"] and fb["tail"] is None and fb["ret"] is not None and unwrap(fb["steps"][0]["p"])["t"] == "ref" and unwrap(fb["steps"][0]["p"]).get("extra"):
+            # `let spec = TimeSpec::parse(input, DEFAULT)?; Ok(Wrapper(spec, ..))`
+            inner = unwrap(fb["steps"][0]["p"])
+        if inner is not None:
             ex = inner["extra"]
             d = rx.path_str(ex[0]) if len(ex) == 1 else None
+            if d and "::" in d and d.split("::")[0] in (n.get("targs") or {}):
+                # the default named through a type parameter of the wrapper (`U::wrap` with U = Minutes): the trait function
+                # of that type; when it only applies a constructor to its argument it stands for that constructor
+                ty0 = (n.get("targs") or {})[d.split("::")[0]]
+                cands = [k_ for k_ in g.b.facts.fns if re.match(r"<%s as \w+>::%s$" % (re.escape(ty0), re.escape(d.split("::")[-1])), k_)]
+                if len(cands) == 1:
+                    f_ = g.b.facts.fns[cands[0]]
+                    t_ = rx.tail_expr(f_.body)
+                    if t_ is not None and len(f_.body["stmts"]) == 1 and t_["k"] == "call" and t_["f"]["k"] == "path" and len(t_["args"]) == 1 and len(f_.params) == 1 and rx.is_var(t_["args"][0], f_.params[0][0]):
+                        d = "::".join(t_["f"]["segs"])
             return "%s/default=%s" % (type_of_key(inner["fn"], inner.get("targs")), rx.canon_path(d, scope) if d else src(ex))
         return type_of_key(n["fn"], n.get("targs"))
     return peg.show(n)
